@@ -53,10 +53,15 @@ pub struct BBSplusPoKSignature {
     Bbar: G1Projective,
     #[serde(deserialize_with = "crate::utils::util::bbsplus_utils::checked_serde::g1_not_identity")]
     D: G1Projective,
+    #[serde(deserialize_with = "crate::utils::util::bbsplus_utils::checked_serde::scalar_not_zero")]
     e_cap: Scalar,
+    #[serde(deserialize_with = "crate::utils::util::bbsplus_utils::checked_serde::scalar_not_zero")]
     r1_cap: Scalar,
+    #[serde(deserialize_with = "crate::utils::util::bbsplus_utils::checked_serde::scalar_not_zero")]
     r3_cap: Scalar,
+    #[serde(deserialize_with = "crate::utils::util::bbsplus_utils::checked_serde::scalars_not_zero")]
     m_cap: Vec<Scalar>,
+    #[serde(deserialize_with = "crate::utils::util::bbsplus_utils::checked_serde::scalar_not_zero")]
     challenge: Scalar,
 }
 
@@ -137,6 +142,15 @@ impl BBSplusPoKSignature {
         let challenge = m_cap.pop().ok_or(Error::InvalidProofOfKnowledgeSignature)?; //at least the challenge should be present (even if all attributes are disclosed)
 
         if bool::from(Abar.is_identity()) || bool::from(Bbar.is_identity()) || bool::from(D.is_identity()) {
+            return Err(Error::InvalidProofOfKnowledgeSignature);
+        }
+        // octets_to_proof: every scalar of a proof lies in 1 .. r - 1
+        if e_cap == Scalar::ZERO
+            || r1_cap == Scalar::ZERO
+            || r3_cap == Scalar::ZERO
+            || challenge == Scalar::ZERO
+            || m_cap.iter().any(|m| *m == Scalar::ZERO)
+        {
             return Err(Error::InvalidProofOfKnowledgeSignature);
         }
 
@@ -849,6 +863,15 @@ where
         return Err(Error::PoKSVerificationError(
             "Identity point in proof".to_owned(),
         ));
+    }
+    // ... and the zero scalars it refuses (every scalar of a proof lies in 1 .. r - 1)
+    if proof.e_cap == Scalar::ZERO
+        || proof.r1_cap == Scalar::ZERO
+        || proof.r3_cap == Scalar::ZERO
+        || proof.challenge == Scalar::ZERO
+        || proof.m_cap.iter().any(|m| *m == Scalar::ZERO)
+    {
+        return Err(Error::PoKSVerificationError("Zero scalar in proof".to_owned()));
     }
 
     let init_res = proof_verify_init::<CS>(
